@@ -167,7 +167,8 @@ def plan(tier, rng, sl, nslices, stats):
         elif i % 3 == 0:
             yield {"kind": "cfg", "g": gcfg.random_case(rng, max_vars=3, max_terms=2, max_prods=5, max_body=3)}
         else:
-            yield {"kind": "pda", "p": gpda.random_case(rng, max_push=rng.choice([1, 2, 3, 3]))}
+            yield {"kind": "pda", "p": gpda.random_case(rng, max_push=rng.choice([1, 2, 3, 3]),
+                                                        vcs=gpda.VCS + ["reservednum"])}
 
 
 def run_case(c, stats):
